@@ -228,14 +228,15 @@ Local Close Scope Z_scope.
 
 (* ================================ projected update steps ======================================= *)
 (* every entry of the factor matrices after an SGD / Adam / Adagrad step is >= the lower bound, whatever the
-   gradient, the optimizer state and the (abstract) square roots and divisions are *)
+   gradient, the optimizer state, the (abstract) square roots and divisions and the outcome vpos of Adagrad's guard
+   `_gnormsum > 0` (zero accumulator included) are *)
 Theorem C13_bounds_steps : forall (V : Type) (vle : V -> V -> Prop) (vmax : V -> V -> V),
   (forall a b, vle a (vmax a b)) ->
-  forall (vadd vsub vmul vdiv : V -> V -> V) (vsqrt : V -> V) (vpow : V -> nat -> V) (v0 v1 : V) (lb : option V),
+  forall (vadd vsub vmul vdiv : V -> V -> V) (vsqrt : V -> V) (vpow : V -> nat -> V) (v0 v1 : V) (vpos : V -> bool) (lb : option V),
   (forall rate decay nfails xs gs, Forall (above V vle lb) (sgd_step V vmax vsub vmul vpow rate decay nfails lb xs gs)) /\
   (forall rate decay b1 b2 eps ei nf o xs gs,
      Forall (above V vle lb) (fst (adam_step V vmax vadd vsub vmul vdiv vsqrt vpow v0 v1 rate decay b1 b2 eps ei nf lb o xs gs))) /\
-  (forall gsum xs gs, Forall (above V vle lb) (fst (adagrad_step V vmax vadd vsub vmul vdiv vsqrt v0 v1 lb gsum xs gs))).
+  (forall gsum xs gs, Forall (above V vle lb) (fst (adagrad_step V vmax vadd vsub vmul vdiv vsqrt v0 v1 vpos lb gsum xs gs))).
 Proof. exact thm_bounds_steps. Qed.
 Print Assumptions C13_bounds_steps.
 
@@ -267,10 +268,11 @@ Theorem C13_sgd_stepsize : forall rate decay nf,
 Proof. exact thm_sgd_stepsize. Qed.
 Print Assumptions C13_sgd_stepsize.
 
-(* Adagrad: the accumulator grows by the squared gradient norm, step = 1 / sqrt(accumulator) >= 0, x' = max(lb, x - step * g);
+(* Adagrad: the accumulator grows by the squared gradient norm, step = (1 / sqrt(accumulator) if accumulator > 0 else 0) >= 0
+   (adagrad_stepsize; the guard of /repo 2496788), x' = max(lb, x - step * g);
    after reset_state / a failed epoch the accumulator is the squared norm of that step's gradient alone *)
 Theorem C13_adagrad_step_arith : forall (sq : Qc -> Qc), (forall x, 0 <= sq x) -> forall lb gsum xs gs, length gs = length xs ->
-  let gsum' := snd (qadagrad_step sq lb gsum xs gs) in let step := 1 / sq gsum' in
+  let gsum' := snd (qadagrad_step sq lb gsum xs gs) in let step := adagrad_stepsize sq gsum' in
   gsum' = gsum + sumsq gs /\ gsum <= gsum' /\ (0 <= gsum -> 0 <= gsum') /\ 0 <= step /\
   length (fst (qadagrad_step sq lb gsum xs gs)) = length xs /\
   forall k, (k < length xs)%nat ->
@@ -283,6 +285,21 @@ Theorem C13_adagrad_after_reset : forall (sq : Qc -> Qc) lb g0 xs gs,
   snd (qadagrad_step sq lb (adagrad_reset Qc 0 g0) xs gs) = sumsq gs.
 Proof. exact adagrad_after_reset. Qed.
 Print Assumptions C13_adagrad_after_reset.
+(* zero accumulator (every gradient sampled since the last reset exactly zero; repaired finding C13-G1): whatever the square root
+   answers — NO hypothesis on sq — the step size is 0, every new entry is max(lb, x): the bound holds and a feasible model stays *)
+Theorem C13_adagrad_zero_accumulator : forall (sq : Qc -> Qc) lb gsum xs gs, length gs = length xs -> gsum + sumsq gs <= 0 ->
+  adagrad_stepsize sq (gsum + sumsq gs) = 0 /\
+  snd (qadagrad_step sq lb gsum xs gs) = gsum + sumsq gs /\
+  fst (qadagrad_step sq lb gsum xs gs) = map (clamp Qc qmax lb) xs /\
+  Forall (above Qc Qcle lb) (fst (qadagrad_step sq lb gsum xs gs)) /\
+  (Forall (above Qc Qcle lb) xs -> fst (qadagrad_step sq lb gsum xs gs) = xs).
+Proof. exact adagrad_zero_accumulator. Qed.
+Print Assumptions C13_adagrad_zero_accumulator.
+Theorem C13_adagrad_zero_gradient_after_reset : forall (sq : Qc -> Qc) lb g0 xs gs,
+  length gs = length xs -> sumsq gs = 0 -> Forall (above Qc Qcle lb) xs ->
+  qadagrad_step sq lb (adagrad_reset Qc 0 g0) xs gs = (xs, 0).
+Proof. exact adagrad_zero_gradient_after_reset. Qed.
+Print Assumptions C13_adagrad_zero_gradient_after_reset.
 
 (* Adam: moments, bias corrections with the step counter that advances by epoch_iters per step, projected update *)
 Theorem C13_adam_step_arith : forall (sq : Qc -> Qc), (forall x, 0 <= sq x) -> forall rate decay b1 b2 eps ei nf lb o xs gs,
